@@ -240,6 +240,26 @@ func ruleRemainderUsed(w *World, r *RuleResult) {
 							}
 						}
 					}
+					// `res = Inexact | Rounded` as a plain assignment: the constant arrives at the merge point as a φ edge
+					switch in.(type) {
+					case *ssa.Jump, *ssa.If:
+						b := in.Block()
+						for _, s := range b.Succs {
+							for _, y := range s.Instrs {
+								phi, isPhi := y.(*ssa.Phi)
+								if !isPhi {
+									break
+								}
+								for i, e := range phi.Edges {
+									if s.Preds[i] == b {
+										if v, ok := condBits(e); ok && typeIs(e.Type(), apdPath, "Condition") && v&inexact != 0 && v < 1<<12 {
+											return true
+										}
+									}
+								}
+							}
+						}
+					}
 					// sticky: an arithmetic write into the destination coefficient
 					if c, ok := in.(*ssa.Call); ok {
 						n := w.calleeName(c)
